@@ -340,11 +340,14 @@ class MementoFunction(MementoFunctionBase):
         version_salt: str = None,
     ) -> MementoFunctionType:
         """Re-constructs a clone of this function, modifying one or more attributes"""
-        return MementoFunction(
+        # Note: a clone of an automatically-versioned function stays automatically versioned
+        # (its version is not frozen at the time of cloning), so that it follows later code
+        # changes and its nested calls are still validated against its dependencies.
+        clone = MementoFunction(
             fn=fn or self.fn,
             src_fn=src_fn or self.src_fn,
             cluster_name=cluster_name or self.cluster_name,
-            version=version or self.version(),
+            version=version or self.explicit_version,
             calculated_version=calculated_version or self._calculated_version,
             context=context or self.context,
             partial_args=partial_args or self.partial_args,
@@ -356,6 +359,9 @@ class MementoFunction(MementoFunctionBase):
             version_salt=version_salt or self._constructor_provided_version_salt,
             register_fn=False,
         )
+        # The clone watches the same dependencies for changes as the original
+        clone._hash_rules = list(self._hash_rules)
+        return clone
 
     def call(self, *args, **kwargs):
         self._validate_dependency()
@@ -402,7 +408,11 @@ class MementoFunction(MementoFunctionBase):
         self._fn_reference = FunctionReference(
             self,
             cluster_name=self.cluster_name,
-            version=self.version(),
+            version=(
+                self.explicit_version
+                if self.explicit_version is not None
+                else self._calculated_version
+            ),
             partial_args=self.partial_args,
             partial_kwargs=self.partial_kwargs,
         )
@@ -445,7 +455,9 @@ class MementoFunction(MementoFunctionBase):
                     )
                 else:
                     if self._calculated_version is None:
-                        self._calculated_version = entry.version()
+                        self._calculated_version = entry.version
+                        self._update_fn_reference()
+                    elif self._fn_reference is None:
                         self._update_fn_reference()
                     return
 
